@@ -40,6 +40,41 @@ func (fr *Frame) loopOrdinal(h *ssa.BasicBlock) int {
 	return -1
 }
 
+// ghostArgs binds the parameters of a loop ghost closure: "idx" is the range
+// index (number of completed iterations), any other name is the header phi of
+// the variable with that name (a variable declared by the for statement itself).
+func (fr *Frame) ghostArgs(c *CloV, h *ssa.BasicBlock, phiVal func(*ssa.Phi) Val, st *State) ([]Val, bool) {
+	var out []Val
+	rphi, _, isRange := rangeInfo(h)
+	for _, p := range c.Fn.Params {
+		if p.Name() == "idx" {
+			if !isRange {
+				fr.x.unsupported("%s: idx used on a loop that is not a slice range", fr.fn)
+				return nil, false
+			}
+			t, _ := fr.x.termOf(phiVal(rphi), st)
+			out = append(out, TV{T: Add(t, IntLit(1))})
+			continue
+		}
+		var found *ssa.Phi
+		for _, in := range h.Instrs {
+			ph, ok := in.(*ssa.Phi)
+			if !ok {
+				break
+			}
+			if ph.Comment == p.Name() {
+				found = ph
+			}
+		}
+		if found == nil {
+			fr.x.unsupported("%s: loop ghost parameter %s does not name a variable of the loop statement", fr.fn, p.Name())
+			return nil, false
+		}
+		out = append(out, phiVal(found))
+	}
+	return out, true
+}
+
 // enterLoop cuts the loop at its header: the invariants are asserted for the
 // entry state, everything the loop may modify is havocked, and the invariants
 // are assumed for the arbitrary iteration that is then executed once.
@@ -53,27 +88,20 @@ func (fr *Frame) enterLoop(h *ssa.BasicBlock, st *State, g Term, inPreds []*ssa.
 	k := fr.loopOrdinal(h)
 	phi, lenV, isRange := rangeInfo(h)
 	// --- entry: invariants hold initially
-	var entryIdx Term
-	if isRange {
+	entryPhi := func(p *ssa.Phi) Val {
 		var cands []Val
-		for _, p := range inPreds {
-			cands = append(cands, fr.val(phi.Edges[predIndex(h, p)], fr.out[p]))
+		for _, pr := range inPreds {
+			cands = append(cands, fr.val(p.Edges[predIndex(h, pr)], fr.out[pr]))
 		}
-		v := x.mergeVals(cands, inGs, nil, "rangeidx")
-		t, _ := x.termOf(v, nil)
-		entryIdx = Add(t, IntLit(1))
+		return x.mergeVals(cands, inGs, nil, "phi-entry")
 	}
 	for n, inv := range lg.invs {
-		c := fr.evalClosure(inv, nil, st, g)
-		x.assert(g, fr.oname(fmt.Sprintf("inv-entry/loop%d/%d", k, n)), c, x.posOf(inv.Fn.Pos()), "loop invariant holds on entry")
-	}
-	for n, inv := range lg.rinvs {
-		if !isRange {
-			x.unsupported("%s: RangeInvariant on a loop that is not a slice range", fr.fn)
-			break
+		args, ok := fr.ghostArgs(inv, h, entryPhi, st)
+		if !ok {
+			continue
 		}
-		c := fr.evalClosure(inv, []Val{TV{T: entryIdx}}, st, g)
-		x.assert(g, fr.oname(fmt.Sprintf("inv-entry/loop%d/r%d", k, n)), c, x.posOf(inv.Fn.Pos()), "range loop invariant holds on entry")
+		c := fr.evalClosure(inv, args, st, g)
+		x.assert(g, fr.oname(fmt.Sprintf("inv-entry/loop%d/%d", k, n)), c, x.posOf(inv.Fn.Pos()), "loop invariant holds on entry")
 	}
 	// --- havoc
 	st = st.clone()
@@ -83,6 +111,7 @@ func (fr *Frame) enterLoop(h *ssa.BasicBlock, st *State, g Term, inPreds []*ssa.
 		for c := range st.cells {
 			if !c.Ghost {
 				st.cells[c] = x.fresh("hv_"+c.Name, c.Sort)
+				delete(st.ptrs, c)
 			}
 		}
 	} else {
@@ -94,6 +123,7 @@ func (fr *Frame) enterLoop(h *ssa.BasicBlock, st *State, g Term, inPreds []*ssa.
 		for _, c := range cs {
 			if _, live := st.cells[c]; live {
 				st.cells[c] = x.fresh("hv_"+c.Name, c.Sort)
+				delete(st.ptrs, c)
 			}
 		}
 	}
@@ -102,27 +132,32 @@ func (fr *Frame) enterLoop(h *ssa.BasicBlock, st *State, g Term, inPreds []*ssa.
 		if !ok {
 			break
 		}
-		fr.setReg(p, TV{T: x.fresh("phi_"+nameOr(p.Comment, p.Name()), x.eng.tc.sortOf(p.Type()))}, st)
+		t := x.fresh("phi_"+nameOr(p.Comment, p.Name()), x.eng.tc.sortOf(p.Type()))
+		fr.setReg(p, TV{T: t}, st)
+		x.typeInvariant(t, p.Type(), g)
 	}
 	// --- assume invariants for the arbitrary iteration
+	curPhi := func(p *ssa.Phi) Val { return fr.val(p, st) }
 	if isRange {
 		pt := fr.term(phi, st)
 		lt := fr.term(lenV, st)
+		// at the header the phi holds the index of the last completed element
 		x.assume(g, And(Le(IntLit(-1), pt), Lt(pt, lt)))
-		// note: at the header the phi holds the index of the last completed element;
-		// pt < len always holds because the loop is left when pt+1 >= len.
-		for _, inv := range lg.rinvs {
-			c := fr.evalClosure(inv, []Val{TV{T: Add(pt, IntLit(1))}}, st, g)
-			x.assume(g, c)
-		}
 		fr.decAt[h] = append(fr.decAt[h], Sub(lt, pt))
 	}
 	for _, inv := range lg.invs {
-		c := fr.evalClosure(inv, nil, st, g)
-		x.assume(g, c)
+		args, ok := fr.ghostArgs(inv, h, curPhi, st)
+		if !ok {
+			continue
+		}
+		x.assume(g, fr.evalClosure(inv, args, st, g))
 	}
 	for _, d := range lg.decs {
-		t := fr.evalClosure(d, nil, st, g)
+		args, ok := fr.ghostArgs(d, h, curPhi, st)
+		if !ok {
+			continue
+		}
+		t := fr.evalClosure(d, args, st, g)
 		fr.decAt[h] = append(fr.decAt[h], x.define("dec", t))
 	}
 	if !isRange && len(lg.decs) == 0 && !fr.ghost {
@@ -139,18 +174,15 @@ func (fr *Frame) backEdge(from, h *ssa.BasicBlock, st *State, g Term) {
 		return
 	}
 	k := fr.loopOrdinal(h)
-	phi, lenV, isRange := rangeInfo(h)
+	_, _, isRange := rangeInfo(h)
+	edgePhi := func(p *ssa.Phi) Val { return fr.val(p.Edges[predIndex(h, from)], st) }
 	for n, inv := range lg.invs {
-		c := fr.evalClosure(inv, nil, st, g)
-		x.assert(g, fr.oname(fmt.Sprintf("inv-step/loop%d/%d", k, n)), c, x.posOf(inv.Fn.Pos()), "loop invariant preserved")
-	}
-	if isRange {
-		nv := fr.term(phi.Edges[predIndex(h, from)], st)
-		for n, inv := range lg.rinvs {
-			c := fr.evalClosure(inv, []Val{TV{T: Add(nv, IntLit(1))}}, st, g)
-			x.assert(g, fr.oname(fmt.Sprintf("inv-step/loop%d/r%d", k, n)), c, x.posOf(inv.Fn.Pos()), "range loop invariant preserved")
+		args, ok := fr.ghostArgs(inv, h, edgePhi, st)
+		if !ok {
+			continue
 		}
-		_ = lenV
+		c := fr.evalClosure(inv, args, st, g)
+		x.assert(g, fr.oname(fmt.Sprintf("inv-step/loop%d/%d", k, n)), c, x.posOf(inv.Fn.Pos()), "loop invariant preserved")
 	}
 	ds := fr.decAt[h]
 	off := 0
@@ -162,7 +194,11 @@ func (fr *Frame) backEdge(from, h *ssa.BasicBlock, st *State, g Term) {
 			break
 		}
 		d0 := ds[n+off]
-		d1 := fr.evalClosure(d, nil, st, g)
+		args, ok := fr.ghostArgs(d, h, edgePhi, st)
+		if !ok {
+			continue
+		}
+		d1 := fr.evalClosure(d, args, st, g)
 		x.assert(g, fr.oname(fmt.Sprintf("decr/loop%d/%d", k, n)), And(Le(IntLit(0), d0), Lt(d1, d0)), x.posOf(d.Fn.Pos()), "loop variant decreases and is bounded below")
 	}
 }
@@ -231,6 +267,24 @@ func rootOf(v ssa.Value) ssa.Value {
 			v = x.X
 		case *ssa.UnOp:
 			if x.Op != token.MUL {
+				return nil
+			}
+			if a, ok := x.X.(*ssa.Alloc); ok {
+				// a local variable holding a pointer: follow its single assignment
+				var src ssa.Value
+				n := 0
+				if refs := a.Referrers(); refs != nil {
+					for _, r := range *refs {
+						if st, ok := r.(*ssa.Store); ok && st.Addr == a {
+							n++
+							src = st.Val
+						}
+					}
+				}
+				if n == 1 {
+					v = src
+					continue
+				}
 				return nil
 			}
 			v = x.X
